@@ -408,8 +408,9 @@ class PassShape:
                 continue
             if isinstance(st, ast.If):
                 pol = says_in_memo(st.test)
-                if pol is True and st.body and isinstance(st.body[-1], ast.Return) and len(st.body) == 1:
-                    return ('return', st, st.body[0])
+                if pol is True and st.body and isinstance(st.body[-1], ast.Return) and \
+                        all(isinstance(b_, ast.Expr) and isinstance(b_.value, (ast.Call, ast.Constant)) for b_ in st.body[:-1]):
+                    return ('return', st, st.body[-1])       # (log / trace calls in front of the return change nothing)
                 if pol is False and not st.orelse and i == len(body) - 1:
                     return ('wrap', st, None)
                 if pol is False and st.orelse and len(st.orelse) == 1 and isinstance(st.orelse[0], ast.Return) and i == len(body) - 1:
@@ -960,6 +961,12 @@ def recursion_stays_in_wbs(ctx, o, S):
             o.site(f, c, "recursion into the children of the task (same WBS by C11)")
             continue
         cs = ps.collection_sources(coll, cfg.node_of(fo))
+        cparts = facts.comp_parts(collx) if isinstance(collx, (ast.ListComp, ast.GeneratorExp)) else None
+        if cparts and not (cs['own'] or cs['ancestors']) and isinstance(cparts[2], ast.Name):
+            # `own = [d for d in deps if d.wbs is task.wbs]`: what the filtered comprehension ranges over decides whether these are links
+            cs2 = ps.collection_sources(cparts[2], cfg.node_of(fo))
+            if cs2['own'] or cs2['ancestors']:
+                cs = cs2
         linkish = cs['own'] or cs['ancestors'] or any(
             isinstance(n, ast.Attribute) and n.attr in ('predecessors', 'successors', 'all_predecessors', 'all_successors')
             for n in ast.walk(collx))
